@@ -600,11 +600,16 @@ namespace DFS
       return std::vector<int>{2, 1};
   }
 
-  std::vector<DFS::ImageFileFormat> make_candidate_list(const std::string& name)
+  std::vector<DFS::ImageFileFormat> make_candidate_list(const std::string& file_name)
   {
     std::optional<DFS::Encoding> encoding_hint;
     std::optional<bool> interleaving_hint;
     std::optional<int> sides_hint;
+    // A compressed image file (foo.ssd.gz) gives the same hints as
+    // the file it was made from (foo.ssd).
+    std::string name(file_name);
+    if (DFS::stringutil::ends_with(name, ".gz"))
+      name.resize(name.size() - 3);
     if (DFS::stringutil::ends_with(name, ".ssd") || DFS::stringutil::ends_with(name, ".sdd"))
       {
 	interleaving_hint = false;
